@@ -1059,11 +1059,14 @@ func c11Gen(r *Rng, tier string, idx int) (string, func() string) {
 		return "kind facts", func() string { return c11Facts() }
 	}
 	if idx == 150 {
-		return c11HW(idx, r, true) // the one (6 s) case in which the Abaco packet stream ends by itself
+		return c11HW(idx, r, 1) // the one (6 s) case in which the Abaco packet stream ends by itself
+	}
+	if idx >= 151 && idx <= 155 {
+		return c11HW(idx, r, idx-149) // pixel-map histories on every source kind: roach, lancero, abaco, tri, sim
 	}
 	switch c := r.Intn(100); {
 	case c < 5:
-		return c11HW(idx, r, false)
+		return c11HW(idx, r, 0)
 	case c < 12:
 		return c11Pair(idx, r)
 	case c < 50:
